@@ -4,4 +4,5 @@ CONSTANTS
   BinOps <- AllBin
   UnOps <- AllUn
   MaxDepth = 1
+  FloorDiv = TRUE
 INVARIANT Emit
